@@ -126,6 +126,9 @@ var tables = func() []table {
 		{Name: "65535 groups, first key-group byte on both sides of 0x80", KGCount: 65535,
 			Keys: []string{"a", "ab", "a\x00", "", "aa"}, NS: ns0, EK: ek0, Vals: v0,
 			Times: []int64{aliasTime("a"), 0x10000, aliasTime("ab")}},
+		{Name: "256 groups, every key in a group >= 0x80", KGCount: 256,
+			Keys: []string{s, s + "b", "a", "\x00", "aa"}, NS: ns0, EK: ek0, Vals: v0,
+			Times: []int64{aliasTime(s), aliasTime("a"), 0x10000}},
 	}
 }()
 
@@ -484,7 +487,16 @@ func (w *storeWorld) opts() dkv.DBOptions {
 
 func (w *storeWorld) attach() {
 	w.st = operator.NewKeyedStateStore(w.db, w.c.ks)
-	w.ts = operator.NewTimerStore(w.db, w.c.ks, partitioning.KeyGroupRange{Start: 0, End: w.c.tb.KGCount}, 1<<20)
+	w.ts = nil
+}
+
+// timers: the TimerStore is created on first use (creating one scans the
+// database once per key group)
+func (w *storeWorld) timers() *operator.TimerStore {
+	if w.ts == nil {
+		w.ts = operator.NewTimerStore(w.db, w.c.ks, partitioning.KeyGroupRange{Start: 0, End: w.c.tb.KGCount}, 1<<20)
+	}
+	return w.ts
 }
 
 func (w *storeWorld) getState(k int) (res fetchRes) {
@@ -583,7 +595,7 @@ func replayStore(bi int, beh []mbt.Step, in *mbt.Input, res *mbt.Result) {
 			}
 		case "SetTimer":
 			k, t := st.Int("k"), st.Int("t")
-			w.ts.Put(w.c.key(k), w.c.tm(t))
+			w.timers().Put(w.c.key(k), w.c.tm(t))
 			w.pending[[2]int{k, t}] = true
 			res.Count("timers_set", 1)
 			if err := r.s.AfterWrite(); err != nil {
@@ -591,7 +603,7 @@ func replayStore(bi int, beh []mbt.Step, in *mbt.Input, res *mbt.Result) {
 				return
 			}
 		case "PopTimer":
-			tm, ok := w.ts.Pop()
+			tm, ok := w.timers().Pop()
 			if !ok {
 				res.Driftf("b%d s%d: TimerStore.Pop returns nothing although %d timers were set and not popped (timers are C10's)", bi, si, len(w.pending))
 				return
@@ -765,9 +777,9 @@ type opWorld struct {
 	ctx    context.Context
 
 	maxSize int
-	evs     []int          // events of the current batch
+	evs     []int            // events of the current batch
 	wants   map[int][][3]int // key -> want of the current batch (from FetchEnd)
-	fg      chan error     // the foreground call that makes the operator process the batch
+	fg      chan error       // the foreground call that makes the operator process the batch
 	arr     *gate.Arrival
 	pcall   *hcall // handler call received while waiting for a scan
 	wm      int64
